@@ -443,7 +443,7 @@ pub struct AluCase {
     pub cfg: u8,
     /// lanes = 1 + lanes % 4
     pub lanes: u8,
-    /// K_max = 2 + kmax % 3
+    /// K_max = 2 + kmax % 5 (the code imposes no upper bound on `horner_packed_steps`)
     pub kmax: u8,
     /// kinds per row and lane (normalised: Horner kinds only in lane 0, row 0 lane 0 not Horner)
     pub rows: Vec<Vec<Kind>>,
@@ -536,7 +536,7 @@ pub struct Norm {
 
 pub fn normalise(c: &AluCase, d: usize) -> Norm {
     let lanes = 1 + (c.lanes % 4) as usize;
-    let kmax = 2 + (c.kmax % 3) as usize;
+    let kmax = 2 + (c.kmax % 5) as usize;
     let mut kinds: Vec<Vec<Kind>> = c
         .rows
         .iter()
@@ -661,13 +661,17 @@ fn build_valid<C: Cfg>(n: &Norm, c: &AluCase) -> (Vec<Vec<C::F>>, Vec<Vec<C::F>>
                             put(&mut main[r], lay.at(t), &e1);
                             put(&mut main[r], lay.ct(t), &e2);
                         }
-                        if t == 1 && k >= 3 {
-                            put(&mut main[r], lay.int(0), &acc);
+                        // intermediate j holds the fold after 2(j+1) steps, as long as steps remain
+                        if t % 2 == 1 && t + 1 < k {
+                            put(&mut main[r], lay.int((t - 1) / 2), &acc);
                         }
                     }
-                    if k == 2 && lay.num_int() > 0 && c.garbage {
-                        let e = rnd_e(&mut g);
-                        put(&mut main[r], lay.int(0), &e);
+                    if c.garbage {
+                        // intermediates the arity does not use are not constrained
+                        for j in (k - 1) / 2..lay.num_int() {
+                            let e = rnd_e(&mut g);
+                            put(&mut main[r], lay.int(j), &e);
+                        }
                     }
                     put(&mut main[r], lay.bsq(), &(b * b));
                     acc
@@ -748,16 +752,18 @@ fn alu_expect<C: Cfg>(lay: Lay, kinds: &[Vec<Kind>], main: &[Vec<C::F>], prep: &
                     let bsq = e(r, lay.bsq());
                     let a_t = |t: usize| if t == 0 { a } else { e(r, lay.at(t)) };
                     let c_t = |t: usize| if t == 0 { c } else { e(r, lay.ct(t)) };
-                    // semantic: fold k steps
+                    // semantic: fold k steps; intermediate j = the fold after 2(j+1) steps while
+                    // steps remain
+                    let int_j = |j: usize| e(r, lay.int(j));
                     let mut acc = prev;
-                    let mut after2 = C::E::ZERO;
+                    let mut ints_ok = true;
                     for t in 0..k {
                         acc = acc * b + c_t(t) - a_t(t);
-                        if t == 1 {
-                            after2 = acc;
+                        if t % 2 == 1 && t + 1 < k {
+                            ints_ok &= int_j((t - 1) / 2) == acc;
                         }
                     }
-                    let mut sem = acc == out && bsq == b * b;
+                    let sem = acc == out && bsq == b * b && ints_ok;
                     // literal: as the table lays the fold out over its auxiliary columns
                     if bsq != b * b {
                         bad_rows.push(r);
@@ -768,17 +774,31 @@ fn alu_expect<C: Cfg>(lay: Lay, kinds: &[Vec<Kind>], main: &[Vec<C::F>], prep: &
                             bad_rows.push(pr);
                         }
                     } else {
-                        let int0 = e(r, lay.int(0));
-                        sem &= int0 == after2;
-                        if fold2 != int0 {
+                        if fold2 != int_j(0) {
                             bad_rows.push(pr);
                         }
-                        let leg = if k == 3 {
-                            int0 * b + c_t(2) - a_t(2)
-                        } else {
-                            int0 * bsq + (c_t(2) - a_t(2)) * b + c_t(3) - a_t(3)
-                        };
-                        if leg != out {
+                        // intra-row legs: two steps at a time from the current intermediate,
+                        // into the next intermediate or (last leg) into out; a single last step
+                        // multiplies by b instead of b^2
+                        let mut sidx = 2usize;
+                        let mut slot = 0usize;
+                        let mut bad_here = false;
+                        while sidx < k {
+                            if sidx + 1 < k {
+                                let prod = int_j(slot) * bsq + (c_t(sidx) - a_t(sidx)) * b + c_t(sidx + 1) - a_t(sidx + 1);
+                                if sidx + 2 >= k {
+                                    bad_here |= prod != out;
+                                } else {
+                                    bad_here |= prod != int_j(slot + 1);
+                                    slot += 1;
+                                }
+                                sidx += 2;
+                            } else {
+                                bad_here |= int_j(slot) * b + c_t(sidx) - a_t(sidx) != out;
+                                sidx += 1;
+                            }
+                        }
+                        if bad_here {
                             bad_rows.push(r);
                         }
                     }
@@ -838,7 +858,7 @@ fn alu_expect<C: Cfg>(lay: Lay, kinds: &[Vec<Kind>], main: &[Vec<C::F>], prep: &
     }
 }
 
-pub const RULE_ROWS: &str = "hand-built ALU tables (1-8 rows x 1-4 lanes, K_max 2-4, 10 field/reduction \
+pub const RULE_ROWS: &str = "hand-built ALU tables (1-8 rows x 1-4 lanes, K_max 2-6, 10 field/reduction \
 configurations) whose rows are valid / valid with one main cell perturbed / fully random; oracle: the set of \
 evaluation rows with a failing constraint equals the set of rows whose defining relation fails in the true \
 extension field, and each row's bus messages are exactly (index, operand coefficients, preprocessed \
@@ -1106,7 +1126,7 @@ fn kind_strategy() -> impl Strategy<Value = Kind> {
         2 => Just(Kind::Bool),
         3 => Just(Kind::MulAdd),
         4 => Just(Kind::Horner),
-        5 => (2u8..=4).prop_map(Kind::Packed),
+        5 => (2u8..=6).prop_map(Kind::Packed),
     ]
 }
 
@@ -1132,7 +1152,7 @@ pub fn alu_strategy() -> impl Strategy<Value = AluCase> {
     (
         0u8..NCFG as u8,
         0u8..4,
-        0u8..3,
+        prop_oneof![3 => 0u8..3, 2 => 3u8..5],
         proptest::collection::vec(proptest::collection::vec(kind_strategy(), 4), 1..=7),
         any::<u64>(),
         prop_oneof![3 => Just(0u8), 2 => Just(1u8), 1 => Just(2u8)],
@@ -1162,7 +1182,7 @@ pub fn alu_enumeration(seed: u64) -> Vec<AluCase> {
     for cfg in 0..NCFG {
         let d = CFG_D[cfg];
         for lanes in 1..=4usize {
-            for kmax in 2..=4usize {
+            for kmax in 2..=6usize {
                 let lay = Lay { d, lanes, kmax };
                 let mut targets: Vec<(Kind, usize, Kind)> = vec![];
                 for k in [Kind::Add, Kind::Mul, Kind::Bool, Kind::MulAdd] {
@@ -1255,9 +1275,9 @@ pub fn alu_enumeration(seed: u64) -> Vec<AluCase> {
                         let aux: Vec<usize> = (lay.x() / d..ne).collect();
                         let outs: Vec<(usize, bool)> = {
                             let mut v = vec![(lay.op(0, 3) / d, false), (lay.op(0, 3) / d, true)];
-                            if lay.num_int() > 0 {
-                                v.push((lay.int(0) / d, false));
-                                v.push((lay.int(0) / d, true));
+                            for j in 0..lay.num_int() {
+                                v.push((lay.int(j) / d, false));
+                                v.push((lay.int(j) / d, true));
                             }
                             v
                         };
@@ -1354,7 +1374,7 @@ where
         + BaseAir<C::F>,
 {
     let lanes = 1 + (case.lanes % 4) as usize;
-    let kmax = 2 + (case.kmax % 3) as usize;
+    let kmax = 2 + (case.kmax % 5) as usize;
     let mut g = Sm(case.seed);
     let dist = case.dist;
     let mut rnd_e = |g: &mut Sm| to_e::<C>(&g.vec::<C::F>(D, dist));
@@ -1655,12 +1675,12 @@ pub fn gen_oracle(case: &GenCase) -> Report {
 pub fn gen_strategy() -> impl Strategy<Value = GenCase> {
     let seg = prop_oneof![
         3 => prop_oneof![Just(Kind::Add), Just(Kind::Mul), Just(Kind::Bool), Just(Kind::MulAdd)].prop_map(Seg::Op),
-        4 => proptest::collection::vec(1u8..=4, 1..=4).prop_map(Seg::Chain),
+        4 => proptest::collection::vec(1u8..=6, 1..=4).prop_map(Seg::Chain),
     ];
     (
         0u8..NCFG as u8,
         0u8..4,
-        0u8..3,
+        prop_oneof![3 => 0u8..3, 2 => 3u8..5],
         proptest::collection::vec(seg, 1..=6),
         any::<u64>(),
         prop_oneof![3 => Just(0u8), 1 => Just(1u8), 1 => Just(2u8)],
@@ -1958,6 +1978,7 @@ pub fn run(ctx: &Ctx) {
     }
     ctx.explore("alu-rows", RULE_ROWS, ctx.tier.pick(800_000, 24_000_000), alu_strategy, alu_oracle);
     ctx.explore("alu-generated", RULE_GEN, ctx.tier.pick(300_000, 8_000_000), gen_strategy, gen_oracle);
+    ctx.replay_known("alu-generated", gen_oracle);
     ctx.explore("witness-tables", RULE_WIT, ctx.tier.pick(150_000, 4_000_000), wit_strategy, wit_oracle);
     crate::checks::c11_perm::run(ctx);
 
